@@ -30,23 +30,29 @@ RULE = (
     "{0,1,2}; 1-2 callbacks, each ok/raising and with 0-3 extra scheduling "
     "points inside; 1-3 senders x 1-3 indications, each sender belongs to a "
     "wave; main-thread program from 10 templates (stop after the senders "
-    "finished, stop while they are active, stop+start+second wave+stop, "
-    "restart while the first wave is still sending, senders before start, "
-    "stop twice, stop before start).  Schedule: list of ints consumed at "
-    "every decision point with >1 option (continue the running thread | any "
-    "other runnable thread | fire the timeout of a thread in a timed wait); "
-    "drawn uniform, sparse (few preemptions) or bursty; an exhausted schedule "
-    "is completed fairly.  The real WBEMListener.start/stop/_callback_run/"
-    "_handle_indication/_deliver_indication_to_callbacks run in real threads; "
-    "queue/Event/sleep/Thread start+join/server are shims with a scheduling "
-    "point before and after every operation.  sched_small: every schedule "
-    "with <= 2 (thorough: 3) non-default choices of the smallest scenarios "
-    "(1 sender x 1 indication x 1 callback), enumerated.  realsock: the same "
-    "invariants on the unmodified listener over loopback sockets with OS "
-    "scheduling (validates the shim semantics).  Non-trivial = at least 2 "
-    "indications and at least one preemption of the callback thread between "
-    "get() and task_done() or of the main thread inside stop().  Distinct = "
-    "distinct (scenario, effective schedule).")
+    "finished, stop at any point while they are active, stop+start+second "
+    "wave+stop, restart while the first wave is still sending, senders "
+    "before start, stop twice, stop before start).  Schedule: list of ints "
+    "consumed at every decision point with >1 option (continue the running "
+    "thread | any other runnable thread | fire the timeout of a thread in a "
+    "timed wait: queue.get(timeout), sleep, server poll, main's nap); drawn "
+    "uniform, sparse (1-6 non-default choices), bursty or late-random; an "
+    "exhausted schedule is completed fairly (non-preemptive, timeouts fire "
+    "only when nothing can run).  The real WBEMListener.start/stop/"
+    "_callback_run/_handle_indication/_deliver_indication_to_callbacks and "
+    "the pywbem thread classes run in real threads; queue/Event/sleep/"
+    "Thread start+join/make_server are shims with a scheduling point before "
+    "and after every operation (30-200 decision points per run).  "
+    "sched_small: every schedule with <= 2 (thorough: 3) non-default "
+    "choices of three smallest scenarios (1 sender x 1 indication x 1 "
+    "callback: stop while active / after, restart), enumerated.  realsock: "
+    "the same invariants on the unmodified listener over loopback sockets "
+    "with OS scheduling (validates the shim semantics: FIFO, Full, join, "
+    "restart).  Non-trivial = at least 2 indications and at least one "
+    "preemption of the callback thread between get() and task_done() or of "
+    "the main thread inside stop() (sched_small: any preemption; realsock: "
+    ">= 2 indications).  Distinct = distinct (scenario, effective "
+    "schedule).")
 ASSUMPTIONS = [
     "callbacks raise only Exception subclasses (not SystemExit/"
     "KeyboardInterrupt) and are plain functions (have __name__)",
@@ -94,16 +100,25 @@ KNOWN_RACE = 'stop:raises-AttributeError:ind_queue-set-to-None-while-' \
 # ---------------------------------------------------------------------------
 # generation
 
+def _ints(lo, hi):
+    """
+    Integers lo..hi.  Not st.integers(): that strategy mixes in constants
+    collected from the local source files, so draws would change whenever
+    pywbem or a harness file is edited.
+    """
+    return st.sampled_from(range(lo, hi + 1))
+
+
 @st.composite
 def g_scenario(draw):
     maxq = draw(st.sampled_from([0, 1, 1, 2]))
     pname = draw(st.sampled_from(sorted(PROGRAMS)))
     waves = [0, 1] if 'go1' in PROGRAMS[pname] else [0]
-    ncb = draw(st.integers(1, 2))
+    ncb = draw(_ints(1, 2))
     cbs = tuple((draw(st.sampled_from(['ok', 'ok', 'raise'])),
                  draw(st.sampled_from([0, 0, 1, 3]))) for _ in range(ncb))
-    ns = draw(st.integers(1, 3))
-    senders = [(draw(st.sampled_from(waves)), draw(st.integers(1, 3)))
+    ns = draw(_ints(1, 3))
+    senders = [(draw(st.sampled_from(waves)), draw(_ints(1, 3)))
                for _ in range(ns)]
     if len(waves) == 2 and all(w == 0 for w, _ in senders):
         senders[-1] = (1, senders[-1][1])
@@ -116,20 +131,20 @@ def g_schedule(draw):
     kind = draw(st.sampled_from(['uniform', 'sparse', 'sparse', 'bursty',
                                  'late']))
     if kind == 'sparse':
-        n = draw(st.integers(1, 120))
+        n = draw(_ints(1, 120))
         sched = [0] * n
-        for _ in range(draw(st.integers(1, 6))):
-            sched[draw(st.integers(0, n - 1))] = draw(st.integers(1, 4))
+        for _ in range(draw(_ints(1, 6))):
+            sched[draw(_ints(0, n - 1))] = draw(_ints(1, 4))
         return sched
-    n = draw(st.integers(0, 160))
+    n = draw(_ints(0, 160))
     if kind == 'uniform':
-        return draw(st.lists(st.integers(0, 5), min_size=n, max_size=n))
+        return draw(st.lists(_ints(0, 5), min_size=n, max_size=n))
     if kind == 'bursty':
         return draw(st.lists(st.sampled_from([0, 0, 0, 0, 1, 2, 3]),
                              min_size=n, max_size=n))
     # late: run the default schedule for a while, then random
-    return [0] * draw(st.integers(0, 100)) + \
-        draw(st.lists(st.integers(0, 5), min_size=n // 4, max_size=n // 4))
+    return [0] * draw(_ints(0, 100)) + \
+        draw(st.lists(_ints(0, 5), min_size=n // 4, max_size=n // 4))
 
 
 def strategy():
@@ -270,6 +285,11 @@ def run_case(scenario, schedule, max_steps=4000):
                  wave))
         essential = [main] + [t for t, _ in sender_states]
         run.outcome = s.run(lambda: all(t.done for t in essential))
+        # a callback thread that survives the program (only after a failure
+        # of start()/stop(), reported by itself) may have deliveries pending
+        run.cut_short = run.outcome != 'done' or any(
+            not t.done for t in shims.listener_threads
+            if t.name == 'CallbackThread')
         if run.outcome != 'done':
             run.stuck = ', '.join(
                 '%s@%s%s' % (t.name, t.label,
@@ -279,6 +299,9 @@ def run_case(scenario, schedule, max_steps=4000):
                 not t.done for t in shims.listener_threads
                 if t.name == 'CallbackThread')
             run.main_label = main.label
+            run.stuck_sig = '+'.join(sorted(set(
+                '%s@%s' % (t.name.rstrip('0123456789'), t.label)
+                for t in s.threads if not t.done)))
             run.main_flags = set(main.flags)
     finally:
         try:
@@ -311,6 +334,73 @@ def is_known_race(exc):
         _in_callback_run(exc)
 
 
+def judge_delivery(ctx, ncb, nsenders, sent, acks, log, cut_short,
+                   cb_thread='CallbackThread'):
+    "The delivery invariants over (requests sent, responses, callback log)"
+    # ---- delivery log ----
+    entered = {}     # cb idx -> list of keys
+    per_key = {}     # key -> list of cb idx in order of entry
+    open_cb = None
+    threads = set()
+    serial_ok = True
+    for ev, idx, key, tname in log:
+        threads.add(tname)
+        if ev == 'enter':
+            if open_cb is not None:
+                serial_ok = False
+            open_cb = (idx, key)
+            entered.setdefault(idx, []).append(key)
+            per_key.setdefault(key, []).append(idx)
+        else:
+            if open_cb != (idx, key):
+                serial_ok = False
+            open_cb = None
+    if not serial_ok and not cut_short:
+        ctx.fail('delivery:callbacks-overlap', 'log=%r' % (log,))
+    if len(threads) > 1 or (threads and threads != {cb_thread}):
+        ctx.fail('delivery:not-on-the-callback-thread', 'threads=%r' %
+                 (sorted(threads),))
+
+    for key in sent:
+        res = acks.get(key)
+        got = per_key.get(key, [])
+        if res == 'success':
+            if cut_short and len(got) < ncb:
+                continue    # the failure that cut the run short is reported
+            missing = [i for i in range(ncb) if got.count(i) == 0]
+            twice = [i for i in range(ncb) if got.count(i) > 1]
+            if twice:
+                ctx.fail('delivery:acknowledged-delivered-more-than-once',
+                         '%s delivered %r; log=%r' % (key, got, log))
+            if missing and not got:
+                ctx.fail('delivery:acknowledged-never-delivered',
+                         '%s acknowledged with success, callbacks got %r; '
+                         'log=%r' % (key, got, log))
+            elif missing:
+                ctx.fail('delivery:callback-skipped', '%s reached callbacks '
+                         '%r of %d' % (key, got, ncb))
+            elif got != sorted(got):
+                ctx.fail('delivery:callbacks-not-in-registration-order',
+                         '%s: %r' % (key, got))
+        elif res == 'refused':
+            if got:
+                ctx.fail('delivery:refused-but-delivered', '%s: %r' %
+                         (key, got))
+        elif res == 'noconn':
+            if got:
+                ctx.fail('delivery:never-accepted-but-delivered', '%s: %r' %
+                         (key, got))
+    # per sender: delivery order = acknowledgement (= send) order
+    for idx in range(ncb):
+        for i in range(nsenders):
+            mine = [k for k in entered.get(idx, [])
+                    if k.startswith('s%d.' % i)]
+            nums = [int(k.split('.')[1]) for k in mine]
+            if nums != sorted(nums):
+                ctx.fail('delivery:sender-order-changed',
+                         'callback %d got %r' % (idx, mine))
+
+
 def judge(ctx, scenario, run, classes):
     maxq, cbs, senders, pname = scenario
     ncb = len(cbs)
@@ -322,7 +412,9 @@ def judge(ctx, scenario, run, classes):
     for n, (op, exc, post) in enumerate(run.calls):
         if exc is not None:
             tainted = True
-            if op == 'stop' and is_known_race(exc):
+            if is_known_race(exc):
+                # (also reachable through the clean-up path of a failing
+                # start(), same root cause)
                 classes.append('stop-raised:queue-None-race')
                 ctx.fail(KNOWN_RACE, 'stop() raised %r\n%s\nschedule=%r' % (
                     exc, exc_detail(exc, 8), s.effective_schedule()))
@@ -343,8 +435,8 @@ def judge(ctx, scenario, run, classes):
                 ctx.fail('stop:leaves-port-bound', 'after stop() returned: '
                          '%r' % (post,))
                 tainted = True
-            if post['http_started'] or post['queue_exists']:
-                # public state attributes documented as started/exists
+            if post['http_started']:
+                # documented: whether the listener is started for the port
                 ctx.fail('stop:still-reported-started',
                          'after stop() returned: %r' % (post,))
         if op == 'start' and not tainted:
@@ -355,7 +447,7 @@ def judge(ctx, scenario, run, classes):
 
     # ---- liveness ----
     if run.outcome == 'deadlock':
-        ctx.fail('deadlock:' + run.main_label, 'no thread can run: %s\n'
+        ctx.fail('deadlock:' + run.stuck_sig, 'no thread can run: %s\n'
                  'schedule=%r' % (run.stuck, s.effective_schedule()))
         tainted = True
     elif run.outcome == 'steps':
@@ -385,69 +477,8 @@ def judge(ctx, scenario, run, classes):
         ctx.fail('queue-full:queue-grew-beyond-max_ind_queue_size',
                  'max length %d > %d' % (s.qstats['max_len'], maxq))
 
-    # ---- delivery log ----
-    entered = {}     # cb idx -> list of keys
-    per_key = {}     # key -> list of cb idx in order of entry
-    open_cb = None
-    threads = set()
-    serial_ok = True
-    for ev, idx, key, tname in run.log:
-        threads.add(tname)
-        if ev == 'enter':
-            if open_cb is not None:
-                serial_ok = False
-            open_cb = (idx, key)
-            entered.setdefault(idx, []).append(key)
-            per_key.setdefault(key, []).append(idx)
-        else:
-            if open_cb != (idx, key):
-                serial_ok = False
-            open_cb = None
-    if not serial_ok and run.outcome == 'done':
-        ctx.fail('delivery:callbacks-overlap', 'log=%r' % (run.log,))
-    if len(threads) > 1 or (threads and threads != {'CallbackThread'}):
-        ctx.fail('delivery:not-on-the-callback-thread', 'threads=%r' %
-                 (sorted(threads),))
-
-    for key in run.sent:
-        res = run.acks.get(key)
-        got = per_key.get(key, [])
-        if res == 'success':
-            if run.outcome != 'done':
-                continue    # reported above; the run was cut short
-            missing = [i for i in range(ncb) if got.count(i) == 0]
-            twice = [i for i in range(ncb) if got.count(i) > 1]
-            if twice:
-                ctx.fail('delivery:acknowledged-delivered-more-than-once',
-                         '%s delivered %r; log=%r' % (key, got, run.log))
-            if missing and not got:
-                ctx.fail('delivery:acknowledged-never-delivered',
-                         '%s acknowledged with success, callbacks got %r; '
-                         'calls=%r' % (key, got,
-                                       [(o, e) for o, e, _ in run.calls]))
-            elif missing:
-                ctx.fail('delivery:callback-skipped', '%s reached callbacks '
-                         '%r of %d' % (key, got, ncb))
-            elif got != sorted(got):
-                ctx.fail('delivery:callbacks-not-in-registration-order',
-                         '%s: %r' % (key, got))
-        elif res == 'refused':
-            if got:
-                ctx.fail('delivery:refused-but-delivered', '%s: %r' %
-                         (key, got))
-        elif res == 'noconn':
-            if got:
-                ctx.fail('delivery:never-accepted-but-delivered', '%s: %r' %
-                         (key, got))
-    # per sender: delivery order = acknowledgement (= send) order
-    for idx in range(ncb):
-        for i in range(len(senders)):
-            mine = [k for k in entered.get(idx, [])
-                    if k.startswith('s%d.' % i)]
-            nums = [int(k.split('.')[1]) for k in mine]
-            if nums != sorted(nums):
-                ctx.fail('delivery:sender-order-changed',
-                         'callback %d got %r' % (idx, mine))
+    judge_delivery(ctx, ncb, len(senders), run.sent, run.acks, run.log,
+                   run.cut_short)
     return tainted
 
 
@@ -486,6 +517,9 @@ def classify(scenario, run):
         classes.append('timeout-fired-early')
     if s.qstats['queues'] > 1:
         classes.append('restarted')
+    if any(run.acks.get('s%d.%d' % (i, j)) == 'success'
+           for i, (w, n) in enumerate(senders) if w == 1 for j in range(n)):
+        classes.append('success-after-restart')
     npre = len(s.preemptions)
     classes.append('preemptions=%s' % (npre if npre < 3 else
                                        '3-9' if npre < 10 else '10+'))
@@ -508,6 +542,7 @@ def oracle(ctx, example):
 SMALL = [
     (0, (('ok', 0),), ((0, 1),), 'active'),
     (1, (('ok', 1),), ((0, 1),), 'after'),
+    (1, (('raise', 0),), ((0, 1),), 'restart-active-wait'),
 ]
 
 
@@ -535,6 +570,9 @@ def _small_case(ctx, scenario, schedule, run):
 
 
 def _small_dfs(ctx, scenario, schedule, depth, bound):
+    if ctx.deadline and time.time() > ctx.deadline:
+        ctx.skipped += 1        # enumeration incomplete, shown as skipped=
+        return
     run = run_case(scenario, schedule)
     _small_case(ctx, scenario, schedule, run)
     if depth >= bound:
@@ -553,13 +591,228 @@ def replay_small(ctx, example):
     _small_case(ctx, tuple(scenario), list(schedule), run)
 
 
+# ---------------------------------------------------------------------------
+# model validation: the unmodified listener over loopback sockets
+
+@st.composite
+def g_real(draw):
+    maxq = draw(st.sampled_from([0, 1, 2, 5]))
+    ncb = draw(_ints(1, 2))
+    cbs = tuple(draw(st.sampled_from(['ok', 'raise'])) for _ in range(ncb))
+    senders = tuple(draw(_ints(1, 3))
+                    for _ in range(draw(_ints(1, 3))))
+    gate = draw(st.booleans())       # callbacks wait until all are sent
+    restart = draw(st.booleans())
+    return (maxq, cbs, senders, gate, restart)
+
+
+def _free_port(seed):
+    # below the ephemeral range (32768-60999): connections of other
+    # processes cannot occupy it
+    for n in range(200):
+        port = 12000 + (seed * 7919 + n * 104729) % 18000
+        sk = socket.socket(socket.AF_INET, socket.SOCK_STREAM)
+        try:
+            sk.bind(('127.0.0.1', port))
+        except OSError:
+            continue
+        finally:
+            sk.close()
+        return port
+    raise HarnessError('no free loopback port')
+
+
+def oracle_real(ctx, example):
+    maxq, cbs, senders, gate, restart = example
+    ncb = len(cbs)
+    before = set(threading.enumerate())
+    port = _free_port(ctx.seed + ctx.evaluations * 31 + ctx.shard * 1009)
+    listener = pywbem.WBEMListener('127.0.0.1', http_port=port,
+                                   max_ind_queue_size=maxq)
+    listener.logger.propagate = False
+    listener.logger.disabled = True
+    lock = threading.Lock()
+    log, acks, sent = [], {}, []
+    go = threading.Event()
+
+    def make_cb(idx, kind):
+        def cb(indication, host):
+            key = indication['Key']
+            tname = threading.current_thread().name
+            with lock:
+                log.append(('enter', idx, key, tname))
+            if gate:
+                go.wait(20)
+            with lock:
+                log.append(('exit', idx, key, tname))
+            if kind == 'raise':
+                raise ValueError('callback %d fails on purpose' % idx)
+        cb.__name__ = 'cb%d' % idx
+        return cb
+
+    for i, kind in enumerate(cbs):
+        listener.add_callback(make_cb(i, kind))
+
+    def send(i, n):
+        conn = pywbem.WBEMConnection('http://127.0.0.1:%d' % port,
+                                     timeout=20)
+        for j in range(n):
+            key = 's%d.%d' % (i, j)
+            with lock:
+                sent.append(key)
+            ind = CIMInstance('CIM_AlertIndication', properties={'Key': key})
+            try:
+                conn.ExportIndication(ind)
+                res = 'success'
+            except pywbem.CIMError as exc:
+                res = 'refused' if exc.status_code == pywbem.CIM_ERR_FAILED \
+                    and 'queue is full' in str(exc) else ('error', exc)
+            except pywbem.ConnectionError:
+                res = 'noconn'
+            with lock:
+                acks[key] = res
+        conn.close()
+
+    def delivered():
+        with lock:
+            want = [k for k, r in acks.items() if r == 'success']
+            have = [e[2] for e in log if e[0] == 'exit' and e[1] == ncb - 1]
+        return all(k in have for k in want)
+
+    def wait_delivered():
+        t_end = time.monotonic() + 20
+        while not delivered() and time.monotonic() < t_end:
+            time.sleep(0.005)
+        time.sleep(0.05)    # the callback thread goes back to get()
+
+    stop_exc = None
+    classes = ['maxq=%d' % maxq, 'callbacks=%d' % ncb,
+               'senders=%d' % len(senders)]
+    try:
+        listener.start()
+        ths = [threading.Thread(target=send, args=(i, n), daemon=True)
+               for i, n in enumerate(senders)]
+        for t in ths:
+            t.start()
+        for t in ths:
+            t.join(60)
+        go.set()
+        wait_delivered()
+        complete = delivered()
+        try:
+            listener.stop()
+        except Exception as exc:  # judged below
+            stop_exc = exc
+        if restart and stop_exc is None:
+            classes.append('restarted')
+            listener.start()
+            send(len(senders), 1)
+            wait_delivered()
+            complete = complete and delivered()
+            try:
+                listener.stop()
+            except Exception as exc:  # judged below
+                stop_exc = exc
+    finally:
+        go.set()
+        if stop_exc is None:
+            listener.stop()
+
+    if stop_exc is not None:
+        if is_known_race(stop_exc):
+            ctx.fail(KNOWN_RACE, 'stop() raised %r\n%s' %
+                     (stop_exc, exc_detail(stop_exc, 8)))
+        else:
+            ctx.fail_exc(stop_exc, 'stop-raises')
+    else:
+        time.sleep(0.01)
+        left = [t.name for t in threading.enumerate()
+                if t not in before and t.is_alive() and
+                not t.name.startswith('Thread-')]
+        left += [t.name for t in threading.enumerate()
+                 if t not in before and t.is_alive() and
+                 t.name.startswith('Thread-') and t not in ths]
+        if left:
+            ctx.fail('stop:leaves-thread-behind:' + '+'.join(sorted(set(
+                n.split('-')[0] for n in left))), 'threads: %r' % (left,))
+        sk = socket.socket(socket.AF_INET, socket.SOCK_STREAM)
+        sk.setsockopt(socket.SOL_SOCKET, socket.SO_REUSEADDR, 1)
+        try:
+            sk.bind(('127.0.0.1', port))
+        except OSError as exc:
+            ctx.fail('stop:leaves-port-bound', 'bind after stop(): %r' %
+                     (exc,))
+        finally:
+            sk.close()
+    for key, res in acks.items():
+        if isinstance(res, tuple):
+            ctx.fail('sender:unexpected-response:' + type(res[1]).__name__,
+                     '%s: %r' % (key, res[1]))
+    nsend = len(senders) + 1
+    judge_delivery(ctx, ncb, nsend, sent, acks, log, cut_short=not complete)
+    if not complete and stop_exc is None:
+        ctx.fail('delivery:acknowledged-never-delivered',
+                 'not delivered 20 s after the response; acks=%r log=%r' %
+                 (acks, log))
+    vals = list(acks.values())
+    for r in ('success', 'refused', 'noconn'):
+        if r in vals:
+            classes.append('some-' + r)
+    if gate:
+        classes.append('callbacks-gated')
+    ctx.case(nontrivial=len(vals) >= 2, classes=classes)
+
+
 SUBCHECKS = [
-    Sub('sched', strategy=strategy, oracle=oracle, quick=(16, 300),
+    Sub('sched', strategy=strategy, oracle=oracle, quick=(16, 700),
         thorough=(16, 10000), case_timeout=60, budget=(80, 1500)),
 ]
 _small = Sub('sched_small', enumerate=enumerate_small, quick=(16, 0),
              thorough=(16, 0), budget=(80, 1500))
 _small.replay = replay_small
 SUBCHECKS.append(_small)
+SUBCHECKS.append(Sub('realsock', strategy=g_real, oracle=oracle_real,
+                     quick=(16, 3), thorough=(16, 6), case_timeout=120,
+                     budget=(80, 600)))
 
-SENSITIVITY = []
+EXTRA_COVERAGE = {
+    'traces_validated_against_impl':
+        'sub-check realsock (see subchecks.realsock.evaluations): delivery/'
+        'refusal/stop/restart invariants on the real listener over loopback',
+}
+
+# mutation of pywbem/_listener.py (one at a time, scratch worktree, quick
+# tier, VERIF_SEED=1) -> new signature(s) reported
+SENSITIVITY = [
+    "_handle_indication: put(queue_item, block=True) -> sched/queue-full:"
+    "handler-waits-instead-of-refusing (also with the proposed fix applied)",
+    "_callback_run: task_done() moved before the delivery -> sched/delivery:"
+    "acknowledged-never-delivered (only together with the queue-None race: "
+    "the AttributeError then precedes the delivery; with the proposed fix "
+    "the mutation changes no behaviour and nothing is reported)",
+    "stop(): _stop_indication_delivery() before _stop_listener_threads() -> "
+    "sched/delivery:acknowledged-never-delivered (also with the fix)",
+    "_callback_run: break on the first queue.Empty regardless of the stop "
+    "flag -> sched/stop:never-returns:callback-thread-is-dead, sched/start:"
+    "returns-without-running-listener (also with the fix)",
+    "_deliver_indication_to_callbacks: break after a callback raised -> "
+    "sched/delivery:callback-skipped",
+    "stop(): _stop_indication_delivery(immediate=True) -> sched/delivery:"
+    "acknowledged-never-delivered, sched/stop-raises:Empty@_listener:"
+    "_stop_indication_delivery:...",
+    "_stop_listener_threads: server_close() removed -> sched/stop:leaves-"
+    "port-bound, sched/deadlock:sender@cli.wait-accept, sched/start-raises:"
+    "ListenerPortError@_listener:start:...",
+    "_stop_listener_threads: self._http_server = None removed -> sched/stop:"
+    "still-reported-started, sched/stop-raises:AttributeError@_listener:"
+    "_stop_listener_threads:self._http_thread.join",
+    "_deliver_indication_to_callbacks: reversed(self._callbacks) -> sched/"
+    "delivery:callbacks-not-in-registration-order",
+    "start(): queue.LifoQueue instead of queue.Queue -> sched/delivery:"
+    "sender-order-changed",
+    "_stop_indication_delivery: wait loop for the empty queue removed -> "
+    "sched/delivery:acknowledged-never-delivered",
+    "_stop_indication_delivery: _callback_thread.join() removed -> sched/"
+    "stop:leaves-thread-behind:CallbackThread, sched/delivery:sender-order-"
+    "changed (two consumers after a restart)",
+]
